@@ -251,7 +251,7 @@ CHECK = {
             "{-11 km, 0, 365 m, 100 km} or uniform; ellipsoids GRS80, Clarke 1880 IGN, International 1924, sphere, random a +-0.1% "
             "with f in [0,1/290]; Cartesian inputs built from the specification in 50-digit arithmetic and rounded, with Y = +-0 "
             "exactly on the prime meridian and the antimeridian ray and X = +-0 on the +-90deg meridians; non-trivial = all outputs finite",
-    "trusted": ["hand-written model coq/GeodesyModel.v tied by differential execution (this run)",
+    "trusted": ["translator translate/srcfuns.py (clang AST of pure leaf functions -> Gallina)", "hand-written model coq/GeodesyModel.v tied by differential execution (this run)",
                 "translator translate/constants.py (EPSILON, initial delta, GRS80 axes, exponent 1.5)",
                 "extraction (ExtrOcamlBasic), ocaml/numf.ml, ocaml/drv_C01.ml", "harness/C01.cpp, harness/geoA.hpp, mpmath oracle in checks/C01.py",
                 "IEEE-754 rounding and libm are observed (correspondence + oracle), not proved"],
@@ -259,7 +259,7 @@ CHECK = {
                     "std::pow(x,2) is modelled as x*x"],
     "run_timeout": 900,
     "manifest": {
-        "text": "Coq theorems over the reals about a model of EarthEllipsoid/ECEFConverter: toECEF is foot point on the ellipsoid plus "
+        "text": "SYNTACTIC TIE: the closed-form leaves (toECEF) are re-translated from the clang AST of the current source into Gallina terms on every run (translate/srcfuns.py -> coq/gen/SrcFuns.v) and proved equal, over the reals, to the model functions the theorems are about. Coq theorems over the reals about a model of EarthEllipsoid/ECEFConverter: toECEF is foot point on the ellipsoid plus "
                 "h times the unit normal, the normal being parallel to the gradient of the ellipsoid's quadratic form; longitude "
                 "recovered exactly by atan2 on (-pi,pi]; the true latitude is a fixed point of the iteration body and the loop started "
                 "there stops at once; an exit with |delta|<=eps under a q-Lipschitz body is within q*eps/(1-q) of the fixed point; height "
